@@ -683,6 +683,40 @@ func runC02(c *mc.Ctx) {
 		c.Space("cashaddr strings with a character outside the alphabet and the checksum a lenient decoder would expect: position x byte value 0..255 x foreign character", calls.Load())
 	}
 
+	// (C3b) public-key hex strings: every byte value substituted and inserted at every position of the
+	// strings of every shape (valid and invalid ones alike) with format bytes 02, 03, 04, 06, 07 - a
+	// hex parser that stops at the first bad character, or one that takes a prefix of the string,
+	// accepts something that is not the canonical spelling of a key
+	{
+		var ps []string
+		for _, shape := range c02PubShapes {
+			for _, first := range []int{2, 3, 4, 6, 7} {
+				ps = append(ps, c02Pub{Net: "mainnet", First: first, Shape: shape, Point: 0}.build())
+			}
+		}
+		var total atomic.Int64
+		c.ParFor(int64(len(ps)), func(w *mc.W, i int64) {
+			b := ps[i]
+			n := int64(0)
+			for pos := 0; pos <= len(b); pos++ {
+				for v := 0; v < 256; v++ {
+					w.State()
+					c02EvalStr(w, c02StrOf("mainnet", b[:pos]+string([]byte{byte(v)})+b[pos:]))
+					n++
+					if pos < len(b) && byte(v) != b[pos] {
+						m := []byte(b)
+						m[pos] = byte(v)
+						w.State()
+						c02EvalStr(w, c02StrOf("mainnet", string(m)))
+						n++
+					}
+				}
+			}
+			total.Add(n)
+		})
+		c.Space("public-key hex strings of 11 shapes x 5 format bytes: every byte value substituted and inserted at every position", total.Load())
+	}
+
 	// (C4) two different legacy addresses whose Base58Check checksums are equal (birthday search), and two
 	// different cash addresses of one prefix whose low 20 checksum bits... are not searched (2^40): the
 	// legacy pair is decoded alternately - what a decoder keeps from one call (a cache keyed by the
